@@ -29,8 +29,7 @@ const realOriginBalance = 9000000000000000000 // enough for gasLimit*gasPrice + 
 
 var oneRPG = new(big.Int).Exp(big.NewInt(10), big.NewInt(18), nil)
 
-func weiToDecimal(v int) string {
-	b := big.NewInt(int64(v))
+func weiToDecimal(b *big.Int) string {
 	q, r := new(big.Int).QuoRem(b, oneRPG, new(big.Int))
 	return fmt.Sprintf("%s.%018s", q.String(), r.String())
 }
@@ -86,7 +85,7 @@ func (h *harness) runRealBlock(blk *block) ([]string, string) {
 			}
 		}
 		intrinsic := uint64(53000*30 + 16*30*len(input) + 1000000)
-		cd := types.ContractData{GasLimit: strconv.FormatUint(gasCap+intrinsic, 10), TransferValue: weiToDecimal(tx.value), AbiData: "0x" + common.Bytes2Hex(input)}
+		cd := types.ContractData{GasLimit: strconv.FormatUint(gasCap+intrinsic, 10), TransferValue: weiToDecimal(tx.val()), AbiData: "0x" + common.Bytes2Hex(input)}
 		if len(input) == 0 {
 			cd.AbiData = ""
 		}
